@@ -564,7 +564,7 @@ func alterOnce(t *rapid.T, p party, ref refSuite, lbl, desc string, clientPK *op
 			copy(pb[L:], proofBytes[:L])
 			how = "swap"
 		} else {
-			how = rapid.SampledFrom([]string{"bitflip", "bitflip", "plus1", "minus1", "zero", "one", "random", "negate"}).Draw(t, lbl+".how")
+			how = rapid.SampledFrom([]string{"bitflip", "bitflip", "plus1", "minus1", "zero", "one", "random", "negate", "alias"}).Draw(t, lbl+".how")
 			old := si.bytesToBig(proofBytes[off : off+L])
 			var nv *big.Int
 			switch how {
@@ -584,6 +584,17 @@ func alterOnce(t *rapid.T, p party, ref refSuite, lbl, desc string, clientPK *op
 				nv = new(big.Int).Neg(old)
 			case "random":
 				_, nv = si.drawScalar(t, false, lbl+".rs")
+			case "alias":
+				// another encoding of the same residue: residue + order when it fits the
+				// encoding, else the top bit of the encoding set
+				al := new(big.Int).Add(new(big.Int).Mod(old, si.order), si.order)
+				if al.BitLen() <= 8*L {
+					copy(pb[off:off+L], si.bigToBytes(al))
+				} else if si.le {
+					pb[off+L-1] |= 0x80
+				} else {
+					pb[off] |= 0x80
+				}
 			}
 			if nv != nil {
 				copy(pb[off:off+L], si.bigToBytes(nv.Mod(nv, si.order)))
@@ -597,7 +608,15 @@ func alterOnce(t *rapid.T, p party, ref refSuite, lbl, desc string, clientPK *op
 			return
 		}
 		if si.sameProofScalars(pb, proofBytes) {
-			vlib.Class(sub, "noncanonical-alias-of-the-same-scalars (C09; not asserted)")
+			// observed, not asserted
+			res := "rejected"
+			if np := new(dleq.Proof); np.UnmarshalBinary(g, pb) == nil {
+				evA.Proof = np
+				if _, err := p.finalize(pkA, fdA, evA, infoA); err == nil {
+					res = "accepted"
+				}
+			}
+			vlib.Class(sub, "noncanonical-alias-of-the-same-scalars "+res+" (C09's subject; not asserted)")
 			return
 		}
 		np := new(dleq.Proof)
